@@ -1956,6 +1956,9 @@ func (s *SelectStatement) GroupByOffset() (time.Duration, error) {
 			if len(call.Args) == 2 {
 				switch expr := call.Args[1].(type) {
 				case *DurationLiteral:
+					if interval == 0 {
+						return 0, nil
+					}
 					return expr.Val % interval, nil
 				case *TimeLiteral:
 					return expr.Val.Sub(expr.Val.Truncate(interval)), nil
